@@ -349,6 +349,31 @@ pub fn colm() -> ZooLang {
     }
 }
 
+pub const DOCOL_SCANNER: &str = include_str!("../../zoo/docol_scanner.c");
+
+/// The repository's own `uses_current_column` test grammar: a `do` block is as deep as the column of the token after `do`,
+/// so the scanner STATE depends on columns inside a line (an edit earlier on the line, or joining two lines, moves them).
+pub fn docol() -> ZooLang {
+    let e = || sym("_expression");
+    let g = G::new("docol")
+        .external(sym("_indent")).external(sym("_dedent")).external(sym("_newline"))
+        .rule("block", rep1(sym("_statement")))
+        .rule("_statement", seq(vec![e(), sym("_newline")]))
+        .rule("_expression", choice(vec![sym("do_expression"), sym("binary_expression"), sym("identifier")]))
+        .rule("do_expression", seq(vec![s("do"), sym("_indent"), sym("block"), sym("_dedent")]))
+        .rule("binary_expression", prec_left(1, seq(vec![e(), choice(vec![s("="), s("+"), s("-")]), e()])))
+        .rule("identifier", pat("\\w+"));
+    ZooLang {
+        name: "docol", spec: spec(g, Some(DOCOL_SCANNER)),
+        lexemes: vec!["do", "a", "=", "+", "\n", " ", "   "],
+        seeds: vec![
+            "a\n", "a = b\n", "c =\n do d\n    e\nf\n", "c = \n do d\n    e\nf\n", "a = do b\n       c\nd\n", "do a\n   b\nc\n", "do do a\n      b\n   c\nd\n",
+            "x = do a\n       do b\n          c\n       d\ne\n", "a = do b\n c\n", "a\n\n\nb\n", "do\n a\nb\n", "a +\n", "do a", "a = do b + c\n       d - e\n\nf = g\n",
+        ],
+        skippable: b" \t\r\n", has_scanner: true,
+    }
+}
+
 pub const MODAL_SCANNER: &str = include_str!("../../zoo/modal_scanner.c");
 
 /// Scanner state that flows across siblings: `!` toggles a mode, and every later word is a `loud_word` or a `plain_word`
@@ -439,13 +464,13 @@ pub fn fixture(name: &'static str, lexemes: Vec<&'static str>, seeds: Vec<&'stat
 }
 
 pub fn core_zoo() -> Vec<ZooLang> {
-    vec![arith(), stmts(), jsonish(), glr(), lexla(), indent(), pstring(), lookfar(), resv(), colm(), modal()]
+    vec![arith(), stmts(), jsonish(), glr(), lexla(), indent(), pstring(), lookfar(), resv(), colm(), modal(), docol()]
 }
 
 pub fn by_name(name: &str) -> Option<ZooLang> {
     match name {
         "arith" => Some(arith()), "stmts" => Some(stmts()), "jsonish" => Some(jsonish()), "glr" => Some(glr()), "lexla" => Some(lexla()),
-        "indent" => Some(indent()), "pstring" => Some(pstring()), "lookfar" => Some(lookfar()), "groups" => Some(groups()), "resv" => Some(resv()), "tmpl" => Some(tmpl()), "tagl" => Some(tagl()), "colm" => Some(colm()), "modal" => Some(modal()),
+        "indent" => Some(indent()), "pstring" => Some(pstring()), "lookfar" => Some(lookfar()), "groups" => Some(groups()), "resv" => Some(resv()), "tmpl" => Some(tmpl()), "tagl" => Some(tagl()), "colm" => Some(colm()), "modal" => Some(modal()), "docol" => Some(docol()),
         _ => None,
     }
 }
